@@ -615,4 +615,5 @@ func lemmaTickMonotone(intervalStart uint64, intervalsPerDay uint32, t1, t2 uint
 //@ loop 0 invariant true
 //@ loop 1 invariant true
 //@ loop 2 invariant true
-//@ exit #backwardVisitsEveryFile: (result1 == nil && direction == utilsio.LAST) ==> (finished || phi(1, i) < 0)
+//@ loop 1 leave #backwardVisitsEveryFile: finished || i < 0
+//@ loop 0 leave #forwardVisitsEveryFile: finished || iter0 >= rangelen
